@@ -1129,7 +1129,12 @@ class ClientRequest(ClientRequestBase):
         self._update_proxy(proxy, proxy_headers)
 
         self._update_body_from_data(data)
-        if data is not None or self.chunked or self.method not in self.GET_METHODS:
+        if (
+            data is not None
+            or self.chunked
+            or self.method not in self.GET_METHODS
+            or hdrs.TRANSFER_ENCODING in self.headers
+        ):
             self._update_transfer_encoding()
         self._update_expect_continue(expect100)
         self._traces = traces
